@@ -816,7 +816,12 @@ class DynamicSlicer:
         # Special case for access to composite types and imports:
         # We want the complete definition of composite types and
         # the imported module, respectively
-        if not traced_instr.arg_address or traced_instr.name in IMPORT_FROM_NAMES:
+        # (subscript and slice accesses are traced with the address sentinel -1)
+        if (
+            not traced_instr.arg_address
+            or traced_instr.name in IMPORT_FROM_NAMES
+            or (traced_instr.arg_address == -1 and traced_instr.argument == "None")
+        ):
             self._logger.debug(
                 "PARTIAL VARIABLE ADDRESS USE: '%s' address", hex(traced_instr.src_address)
             )
